@@ -39,7 +39,8 @@ def run(rep: common.Report, tier: str, seed: int, replay=None) -> int:
     configs = [dict(screening=False, adaptive=True, ramp=False, solve_time=0.3),
                dict(screening=True, adaptive=True, ramp=False, solve_time=0.08),
                dict(screening=False, adaptive=False, ramp=True, solve_time=0.12),
-               dict(screening=False, adaptive=True, ramp=False, solve_time=0.15, four_terminals=True)]
+               dict(screening=False, adaptive=True, ramp=False, solve_time=0.15, four_terminals=True),
+               dict(screening=False, adaptive=True, ramp=False, solve_time=0.1, min_points=900, mel=0.5)]
     if tier == "thorough":
         configs += [dict(screening=True, adaptive=True, ramp=True, solve_time=0.08), dict(screening=False, adaptive=True, ramp=True, solve_time=0.3, mel=0.6)]
     variants = [(1, 0), (4, 1), (16, 2), (2, 3)] if tier == "quick" else [(1, 0), (2, 1), (4, 2), (8, 3), (16, 4), (16, 5), (1, 6), (3, 7)]
@@ -50,6 +51,8 @@ def run(rep: common.Report, tier: str, seed: int, replay=None) -> int:
                 c = dict(cfg)
                 c["outdir"] = os.path.join(td, f"c{ci}", f"v{vi}", "deep" * (vi % 2))
                 c["fname"] = f"run_{vi}.h5"
+                if vi == len(variants) - 1:
+                    c["warm"] = True           # the last variant repeats the problem inside one process
                 jobs.append((ci, vi, th, hs, c))
         with ThreadPoolExecutor(max_workers=4) as ex:
             results = list(ex.map(lambda j: worker(j[4], j[2], j[3]), jobs))
